@@ -310,9 +310,11 @@ def _select_programs(progs, tier, rng):
         v = by[k]
         fam, g, l = k
         if fam == "txfull":
-            n = 300 if tier == "quick" else len(v)
+            n = 200 if tier == "quick" else len(v)
         elif fam.startswith("txhot") and (g, l) == (3, 3):
-            n = 50 if tier == "quick" else 300
+            n = 30 if tier == "quick" else 300
+        elif fam.startswith("txhot"):
+            n = 100 if tier == "quick" else len(v)
         else:
             n = len(v)
         sel += v if n >= len(v) else rng.sample(v, n)
@@ -362,7 +364,7 @@ def _fmt_hist(h):
     return [e for _, e in sorted(ev)]
 
 
-def _run_conc(binary, progs, reps, nproc, tag, timeout):
+def _run_conc(binary, progs, reps, nproc, tag, timeout, nostamp=False):
     """Run the concurrent driver over the programs in nproc processes.
     -> (histories, violations, outputs)"""
     sc = vlib.scratch()
@@ -378,7 +380,7 @@ def _run_conc(binary, progs, reps, nproc, tag, timeout):
         trace = os.path.join(sc, "hist_%s_%d.ndjson" % (tag, i))
         progress = os.path.join(sc, "progress_%s_%d" % (tag, i))
         env = dict(VERIF_SCHED=sched, VERIF_REPS=str(reps), VERIF_TRACE=trace, VERIF_PROGRESS=progress,
-                   VERIF_SEED=str(vlib.seed()), GORACE="halt_on_error=0")
+                   VERIF_SEED=str(vlib.seed()), GORACE="halt_on_error=0", VERIF_NOSTAMP="1" if nostamp else "0")
         rc, out = vlib.run_driver(binary, env, timeout=timeout)
         return rc, out, trace, progress, sched
 
@@ -530,12 +532,12 @@ def run_c29(tier, replay=None):
     budget = 600 if quick else 2400
     cr = _parallel(dict(
         plain=lambda: _run_conc(r["build"], sel, reps, nproc, "plain", budget),
-        race=lambda: _run_conc(r["brace"], sel, race_reps, max(2, nproc // 2), "race", budget),
+        race=lambda: _run_conc(r["brace"], sel, race_reps, max(2, nproc // 2), "race", budget, nostamp=True),
     ))
     hists, v1, outs = cr["plain"]
     rhists, v2, routs = cr["race"]
     violations += v1 + v2
-    # histories of the race build are judged too (different timing)
+    # (the race build runs without stamps and records no histories, see atomdrv VERIF_NOSTAMP)
     allh = hists + rhists
     for i, h in enumerate(allh, 1):
         h["hid"] = i
